@@ -315,6 +315,8 @@ func C12(c *Ctx) {
 	r.Rule("R12.3", "journal completeness: the storage kinds written by Commit (account record, code, state key) are exactly the kinds revertJournal restores, each with put and delete; the journal record of a height is put into the same batch as that height's data and the max-height marker; each reverted height deletes its journal record and lowers the max-height marker in the batch that carries the reverted data.")
 	r.Rule("R12.5", "restore only what changed: in revertJournal every Put / Delete of an account record lies behind the entry's AccountChanged flag and every Put / Delete of code behind CodeChanged; an entry that records only storage changes must leave the stored account record (balance, nonce, code hash) untouched.")
 	r.Rule("R12.6", "one journal entry is undone as a whole: every path through revertJournal reaches the loop over PrevStates and the test of CodeChanged - an early return after the account record was handled would leave the storage keys and the code that the block wrote in the database.")
+	r.Rule("R12.8", "the journal keeps the keys it records: the block journal is stored as JSON and PrevStates is keyed by the raw state key (EVM storage slots are 32 arbitrary bytes); encoding/json replaces invalid UTF-8 in map keys, so the journal entry type owns its JSON form: it has MarshalJSON and UnmarshalJSON, MarshalJSON puts a key into a string-keyed map unencoded only behind utf8.ValidString(key) and hex-encodes the others, UnmarshalJSON hex-decodes them back. Otherwise a rollback (also the start-up rollback after a crash, C11) restores the previous value under a different key and the slot keeps the rolled-back block's value.")
+	c.c12JournalKeys("R12.8")
 	r.Rule("R12.4", "root chain continues: after reverting, every successful path stores prevJnlHash (re-read from the target height's journal) and maxJnlHeight; a value other than that journal's root is stored only behind height == 0 or is overwritten before every return; the rollback is refused exactly when minJnlHeight > height (any spelling of that comparison), so the target's journal record exists whenever it is read.")
 	r.Rule("R12.7", "the journal records the real previous balance (shared with C10 R10.4): "+balanceInPlaceText)
 	c.balanceInPlace("R12.7")
@@ -833,4 +835,69 @@ func (c *Ctx) revertJournalWhole(rule string) {
 		r.Check(len(sites(rj, step.p)) > 0 && !skipped, rule, "revertJournal: every path reaches "+step.name, c.P.Pos(rj.Pos()), "no return before it",
 			"a path through revertJournal returns before "+step.name+": for such a journal entry (e.g. an account created in the block) the storage keys / code written by the block are not removed, and the rolled-back state differs from the state of that height")
 	}
+}
+
+// c12JournalKeys: R12.8 (shared with C11 as R11.7).
+func (c *Ctx) c12JournalKeys(rule string) {
+	r := c.R
+	mj := c.P.Fn("internal/ledger.(*blockJournalEntry).MarshalJSON")
+	uj := c.P.Fn("internal/ledger.(*blockJournalEntry).UnmarshalJSON")
+	key := "blockJournalEntry: state keys survive the stored form"
+	// the premise: the journal is written with encoding/json and PrevStates is a string-keyed map
+	viaJSON := false
+	if commit := c.P.Fn("internal/ledger.(*SimpleLedger).Commit"); commit != nil {
+		for _, rf := range c.regionOf(commit, 1) {
+			for _, call := range core.Calls(rf.fn) {
+				if core.CalleeName(call) == "encoding/json.Marshal" {
+					viaJSON = true
+				}
+			}
+		}
+	} else {
+		r.Anchor(rule, "internal/ledger.(*SimpleLedger).Commit")
+		return
+	}
+	if !viaJSON {
+		r.Note(rule, key, "", "the block journal is no longer stored through encoding/json: the key codec obligation does not apply")
+		return
+	}
+	if mj == nil || uj == nil {
+		r.Bad(rule, key, c.P.Pos(c.P.Fn("internal/ledger.(*SimpleLedger).Commit").Pos()), "the block journal is stored with json.Marshal and its entries record previous values in a map keyed by the raw state key, but the entry type has no MarshalJSON / UnmarshalJSON of its own: encoding/json replaces every invalid UTF-8 byte of a map key by U+FFFD, so the previous value of an EVM storage slot is journaled under another key and a rollback neither restores nor deletes the slot")
+		return
+	}
+	valid := condEdges(mj, func(f core.Fact, ifi *ssa.If) (bool, int) {
+		if f.Kind != core.FBool {
+			return false, 0
+		}
+		cc, ok := core.Strip(f.Subject).(*ssa.Call)
+		if !ok || core.CalleeName(cc) != "unicode/utf8.ValidString" {
+			return false, 0
+		}
+		return true, holdsEdge(f)
+	})
+	isRawKeyStore := func(in ssa.Instruction) bool {
+		mu, ok := in.(*ssa.MapUpdate)
+		if !ok || !strings.HasPrefix(mu.Map.Type().String(), "map[string]") {
+			return false
+		}
+		return !core.Mentions(mu.Key, func(w ssa.Value) bool {
+			cc, ok := w.(*ssa.Call)
+			return ok && core.CalleeName(cc) == "encoding/hex.EncodeToString"
+		})
+	}
+	n := c.behindEdges(rule, "blockJournalEntry.MarshalJSON", mj, valid, isRawKeyStore, "utf8.ValidString(key)", "unencoded key put into the stored map")
+	r.Floor(rule, "unencoded key stores in MarshalJSON", n, 1)
+	hasDecode := false
+	for _, call := range core.Calls(uj) {
+		if core.CalleeName(call) == "encoding/hex.DecodeString" {
+			hasDecode = true
+		}
+	}
+	hasEncode := false
+	for _, call := range core.Calls(mj) {
+		if core.CalleeName(call) == "encoding/hex.EncodeToString" {
+			hasEncode = true
+		}
+	}
+	r.Check(hasDecode && hasEncode, rule, key, c.P.Pos(mj.Pos()), "keys that are not valid UTF-8 are hex-encoded on write and hex-decoded on read", "the writer and the reader of the journal's stored form do not use inverse encodings for keys that are not valid UTF-8")
 }
